@@ -77,7 +77,7 @@ def stepWith (reset : Bool) (w : World) : Op → World
   | .setSsl i b => match w.objs[i]? with
     | some o => { w with objs := w.objs.set i { o with ssl := b } } | none => w
   | .createSockets i quic => match w.objs[i]? with
-    | some o => if o.ssl then setQuic reset w i o quic else w      -- without TLS no QUIC socket is made and nothing is recorded
+    | some o => setQuic reset w i o (if o.ssl then quic else [])   -- without TLS no QUIC socket is made: none is recorded (and none stays)
     | none => w
 
 def runWith (reset : Bool) (w : World) (ops : List Op) : World := ops.foldl (stepWith reset) w
@@ -109,7 +109,7 @@ def objStep (o : Obj) : Op → Obj
   | .setServer _ b => { o with includeServer := b }
   | .setAltSvc _ l => { o with altSvc := l }
   | .setSsl _ b => { o with ssl := b }
-  | .createSockets _ quic => if o.ssl then { o with quicOwn := some quic } else o
+  | .createSockets _ quic => { o with quicOwn := some (if o.ssl then quic else []) }
 
 /-- the operations of a history that are applied to object `i`, applied to `o` -/
 def ownRun (i : Nat) (o : Obj) (ops : List Op) : Obj :=
